@@ -457,6 +457,9 @@ type c01Step struct {
 }
 
 type c01Case struct {
+	// Start: the first incarnation begins on a storage whose read and write index both hold this value (a queue that has
+	// accepted and finished that many requests before) instead of on an empty one
+	Start    uint64    `json:"start_index,omitempty"`
 	Capacity int64     `json:"capacity"`
 	Steps    []c01Step `json:"incarnations"`
 	Drain    bool      `json:"then_drain"`
@@ -500,8 +503,17 @@ func c01IndexInfo(m map[string][]byte, id uint64) string {
 }
 
 // c01Replay re-executes one recorded case and returns the violations it shows.
-func c01Replay(c c01Case) []c01Viol {
+func c01StartStore(start uint64) map[string][]byte {
 	m := map[string][]byte{}
+	if start > 0 {
+		m["ri"] = binary.LittleEndian.AppendUint64(nil, start)
+		m["wi"] = binary.LittleEndian.AppendUint64(nil, start)
+	}
+	return m
+}
+
+func c01Replay(c c01Case) []c01Viol {
+	m := c01StartStore(c.Start)
 	owed := map[uint64]bool{}
 	var out []c01Viol
 	next := uint64(1)
@@ -585,10 +597,41 @@ func TestVerif(t *testing.T) {
 	ctx.R.Extra["scripts_first_incarnation"] = len(scripts0)
 	ctx.R.Extra["scripts_later_incarnations"] = len(scriptsN)
 
+	// start states: the empty storage with every capacity; and, with capacity 3 and shorter first scripts, storages whose
+	// indices have advanced to just below a value at which some rendering of the index (bases 11..36, decimal and binary
+	// width changes) coincides with one of the queue's own bookkeeping keys
+	type startCfg struct {
+		start    uint64
+		capacity int64
+		scripts  [][]c01Op
+	}
+	var startCfgs []startCfg
 	for _, capacity := range caps {
+		startCfgs = append(startCfgs, startCfg{0, capacity, scripts0})
+	}
+	advanced := map[uint64]bool{8: true, 98: true, 254: true, 65534: true}
+	for _, key := range []string{"ri", "wi", "di", "si"} {
+		for base := 11; base <= 36; base++ {
+			if v, err := strconv.ParseUint(key, base, 64); err == nil && v > 1 {
+				advanced[v-1] = true
+			}
+		}
+	}
+	var advList []uint64
+	for v := range advanced {
+		advList = append(advList, v)
+	}
+	sort.Slice(advList, func(i, j int) bool { return advList[i] < advList[j] })
+	scriptsAdv := c01Scripts(ctx.Param("depth_advanced", 3))
+	for _, st := range advList {
+		startCfgs = append(startCfgs, startCfg{st, 3, scriptsAdv})
+	}
+	ctx.R.Extra["advanced_start_indices"] = len(advList)
+	for _, sc0 := range startCfgs {
+		capacity, scripts0 := sc0.capacity, sc0.scripts
 		seen := map[string]bool{}
 		drained := map[string]bool{}
-		frontier := []node{{map[string][]byte{}, map[uint64]bool{}, 1, 0, nil}}
+		frontier := []node{{c01StartStore(sc0.start), map[uint64]bool{}, 1, 0, nil}}
 		for len(frontier) > 0 {
 			if ctx.Expired() {
 				break
@@ -612,7 +655,7 @@ func TestVerif(t *testing.T) {
 				boundaries += int64(len(states))
 				hist := append(append([]c01Step(nil), n.hist...), c01Step{Script: sc, Crash: -1})
 				for _, x := range v {
-					ctx.Violate(x.sig, fmt.Sprintf("capacity=%d history=%s: %s", capacity, c01Hist(hist), x.what), c01Case{Capacity: capacity, Steps: append([]c01Step(nil), hist...)})
+					ctx.Violate(x.sig, fmt.Sprintf("capacity=%d history=%s: %s", capacity, c01Hist(hist), x.what), c01Case{Start: sc0.start, Capacity: capacity, Steps: append([]c01Step(nil), hist...)})
 				}
 				ctx.Outcome(fmt.Sprintf("incarnation-depth-%d", n.depth))
 				violating := len(v) > 0
@@ -652,13 +695,13 @@ func TestVerif(t *testing.T) {
 							hc := append([]c01Step(nil), hist...)
 							sig := "undelivered:" + c01IndexInfo(cm, ids[0])
 							ctx.Violate(sig, fmt.Sprintf("capacity=%d history=%s: request %d accepted, never handed off with a final outcome after restart+drain rounds stopped making progress", capacity, c01Hist(hc), ids[0]),
-								c01Case{Capacity: capacity, Steps: hc, Drain: true})
+								c01Case{Start: sc0.start, Capacity: capacity, Steps: hc, Drain: true})
 							ctx.Outcome("drain-left-owed")
 							continue // liveness broken: do not expand
 						}
 						ctx.Outcome("drained-clean")
 					}
-					if n.depth < chain && !seen[k] && !violating {
+					if n.depth < chain && !seen[k] && !violating && (sc0.start == 0 || n.depth < 1) {
 						seen[k] = true
 						if n.depth+1 > maxChain {
 							maxChain = n.depth + 1
